@@ -85,12 +85,26 @@ def intOfStr (s : Str) : Except Err Int :=
     | some n => .ok (if neg then -(n : Int) else n)
     | none => .error .valueError
 
+/-- `int(x)` for a float given by its `repr`: truncation towards zero for the plain decimal form `[-]ddd.ddd`;
+exponent forms, `inf`, `nan` are outside the model (`Err.other`) -/
+def intOfFloatRepr (r : Str) : Except Err Int :=
+  let (neg, body) := match r with
+    | '-' :: t => (true, t)
+    | t => (false, t)
+  match Str.splitOn '.' body with
+  | [ip, fp] =>
+    if ip.isEmpty || fp.isEmpty || !(ip.all Str.isAsciiDigit) || !(fp.all Str.isAsciiDigit) then .error .other
+    else match Str.parseNatAscii ip with
+      | some n => .ok (if neg then -(n : Int) else n)
+      | none => .error .other
+  | _ => .error .other
+
 /-- `int(v)` -/
 def pyInt : PyVal → Except Err Int
   | .int n => .ok n
   | .bool b => .ok (if b then 1 else 0)
   | .str s => intOfStr s
-  | .float _ => .error .other                                      -- unmodelled: floats are opaque tokens
+  | .float r => intOfFloatRepr r
   | _ => .error .typeError
 
 /-- `bool(v)` -/
